@@ -132,12 +132,21 @@ func runC04(t *simrt.Tape, o Opts) Outcome {
 		h.payloadClasses = []int{2}
 		h.newProc()
 		pol := h.base
+		if t.Choose(3, "faulty") == 1 {
+			// the metastore keeps accepting writes; reads and the KMS may fail
+			enableRandomFaults(w, t, []string{"ms.err", "kms.err"}, pol.Expire, pol.Revoke)
+			w.Faults.Kinds["ms.err"] = true
+			w.Faults.Kinds["ms.readonly-faults"] = true
+		}
 		crossClass := map[string]bool{}
 		h.hooks.afterEncrypt = func(se *world.Sess, rec *world.Rec, op *world.OpRec) {
 			if rec == nil {
-				if op.Panic == "" {
+				if op.Panic == "" && op.Faulted == 0 {
 					w.Violate("encrypt-failed", "encrypt-failed/no-fault", "encrypt failed although the metastore accepts writes: %v", op.Err)
 				}
+				return
+			}
+			if storeFaulted(op) {
 				return
 			}
 			f := factsFor(w, rec)
@@ -235,14 +244,23 @@ func runC05(t *simrt.Tape, o Opts) Outcome {
 		h.payloadClasses = []int{2}
 		h.newProc()
 		pol := h.base
+		if t.Choose(3, "faulty") == 1 {
+			// read-side and KMS failures only: the property presupposes that a replacement key can be created
+			enableRandomFaults(w, t, []string{"ms.err", "kms.err"}, pol.Expire, pol.Revoke)
+			w.Faults.Kinds["ms.err"] = true
+			w.Faults.Kinds["ms.readonly-faults"] = true
+		}
 		classes := map[string]bool{}
 		used := map[string]bool{} // "proc|id@created" keys a process has produced records under
 		h.hooks.afterEncrypt = func(se *world.Sess, rec *world.Rec, op *world.OpRec) {
 			if rec == nil {
-				if op.Panic == "" {
+				if op.Panic == "" && op.Faulted == 0 {
 					w.Violate("encrypt-failed", "encrypt-failed/no-fault", "encrypt failed although nothing was injected: %v", op.Err)
 				}
 				return
+			}
+			if storeFaulted(op) {
+				return // the replacement key could not be persisted in this very operation: exempt
 			}
 			f := factsFor(w, rec)
 			t0 := op.T0
@@ -279,7 +297,7 @@ func runC05(t *simrt.Tape, o Opts) Outcome {
 		h.hooks.afterDecrypt = func(se *world.Sess, rec *world.Rec, got []byte, op *world.OpRec) {
 			// records written under a (now) revoked key remain decryptable
 			count(st.Oracle, "decrypt-under-revoked")
-			if op.Panic == "" && (op.Err != nil || string(got) != string(rec.Payload)) {
+			if op.Panic == "" && op.Faulted == 0 && (op.Err != nil || string(got) != string(rec.Payload)) {
 				w.Violate("decrypt-failed", "decrypt-failed", "record r%d (IK@%d) no longer decrypts: %v", rec.N, rec.IKCreated, op.Err)
 			}
 		}
@@ -292,4 +310,14 @@ func runC05(t *simrt.Tape, o Opts) Outcome {
 		st.Sample = map[string]any{"history": h.trace, "policy": pol.String()}
 	})
 	return finish(s, w, st, false)
+}
+
+// storeFaulted reports whether a metastore write failed (was made to fail) inside the operation.
+func storeFaulted(op *world.OpRec) bool {
+	for _, f := range op.FaultDesc {
+		if len(f) >= 8 && f[:8] == "ms.store" {
+			return true
+		}
+	}
+	return false
 }
